@@ -22,8 +22,12 @@ Definition q_trunc (x : Q) : Q := inject_Z (qtrunc x).
 
 (* ffi/datetime.rs unixtime_us: input.timestamp().as_microsecond() as f64 *)
 Definition ffi_unixtime_us (t : Q) : Q := q_trunc (t * 1000000).
-(* ffi/datetime.rs from_unixtime_us: Timestamp::from_microsecond(x as i64) *)
-Definition ffi_from_unixtime_us (x : Q) : Q := q_trunc x / 1000000.
+(* f64::round: half away from zero *)
+Definition qround (x : Q) : Z :=
+  if Qle_bool 0 x then Qfloor (x + (1 # 2)) else (- Qfloor (- x + (1 # 2)))%Z.
+Definition q_round (x : Q) : Q := inject_Z (qround x).
+(* ffi/datetime.rs from_unixtime_us: Timestamp::from_microsecond(x.round() as i64) *)
+Definition ffi_from_unixtime_us (x : Q) : Q := q_round x / 1000000.
 
 (* core::functions floor_in(base, value) = floor(value / base) × base *)
 Definition nbt_floor_in (base value : Q) : Q := q_floor (value / base) * base.
